@@ -605,8 +605,11 @@ def chain_siblings(ctx: Ctx, rule: str) -> None:
     ctx.touch(fc.ref)
     ctx.touch(ft.ref)
 
+    from ..canon import inline_locals
+
     def skeleton(fn, op_names):
-        w = [x for x in fn.node.body if isinstance(x, ast.While)]
+        # single-definition pure locals are substituted first: hoisting `<state> + '.qcow2'` into a local in one of the two is no difference
+        w = [x for x in inline_locals(fn.node, keep={"transfer_operation"}).body if isinstance(x, ast.While)]
         if len(w) != 1:
             return None
         w = copy.deepcopy(w[0])
